@@ -13,6 +13,8 @@ def main(tier):
     n = len(catalogue.builders(tier, SEED))
     runner.run(rep, 'VacancyMediated::contract', V.w_vacancy, [(cid, tier, SEED, 'C06') for cid in V.vac_ids(tier) + EXTRA], 'onsager/OnsagerCalc.py::VacancyMediated.Lij')
 
+    from contracts import degree_c
+    degree_c.run(rep, ['VacancyMediated.Lij', 'VacancyMediated._symmetricandescaperates'], replay=degree_c.replay_lij)     # the identities are statements about rate RATIOS: nothing in Lij may compare a rate with a fixed number
     from vf import extract
     for rel, q in [('onsager/OnsagerCalc.py', 'VacancyMediated.maketracerpreene'), ('onsager/OnsagerCalc.py', 'VacancyMediated.Lij')]:
         try:
